@@ -316,6 +316,7 @@ def main(argv=None):
     a = ap.parse_args(argv)
     pid = a.pid
     tier = 'thorough' if a.tier.startswith('t') else 'quick'
+    os.environ['PYVC_TIER'] = tier      # read by pyvc.engine in the workers (budgets, cvc5 cross-check)
     seed = int(os.environ.get('VERIF_SEED', '0') or 0)
     t0 = time.time()
     os.makedirs(os.path.join(VERIF, 'evidence'), exist_ok=True)
@@ -436,6 +437,8 @@ def main(argv=None):
                 errors.append(f'obligation {o["name"]} proved in the baseline, source unchanged, now refuted without replay: verifier regression')
         elif o['undecided']:
             undecided.append(o['name'])
+            if any(str(b).startswith('disagreement') for b in o.get('backends', {})):
+                errors.append(f'back ends disagree on {o["name"]}: {sorted(o["backends"])}')
 
     for r in cres:
         if r.get('error'):
